@@ -7,7 +7,8 @@ KEYCHARS = (string.ascii_letters + string.digits + '!#$%&()*+,-./:;<=>?@[]^_{|}~
 
 
 def mk_key(rng, n):
-    return bytes(rng.choice(KEYCHARS) for _ in range(n))
+    k = bytes(rng.choice(KEYCHARS) for _ in range(n))
+    return b'k' if k == b'-' else k          # a lone '-' is the harness' spelling of "no value"
 
 
 def small_sig(rng, h, big=False):
@@ -278,7 +279,8 @@ def response_part(job, r):
         # other mutants
         other = []
         other.append(('other-key', lambda req: S.aggr_response(req, s, key + b'x', version=version, alg=alg)))
-        other.append(('other-key-prefix', lambda req: S.aggr_response(req, s, key[:-1] or b'y', version=version, alg=alg)))
+        shorter = key[:-1] or (b'y' if key != b'y' else b'z')
+        other.append(('other-key-prefix', lambda req: S.aggr_response(req, s, shorter, version=version, alg=alg)))
         for a2 in (1, 4, 5, 2):
             if a2 != alg:
                 if version == 2:
